@@ -108,7 +108,47 @@ def check_nested(inp):
     return None
 
 
+OFFDECL = """library: sel
+cxx_header: sel.hpp
+options:
+%%s
+declarations:
+- decl: void keep(int a)
+- decl: void hidden(int a, int b = 1, double c = 2.0)
+  options:
+%s
+"""
+
+
+def check_declaration_off(inp):
+    """a function whose wrapper is off for a language has no wrapper of that language, for none of its signatures"""
+    global YAML
+    saved = YAML
+    YAML = OFFDECL % "".join("    wrap_%s: false\n" % l for l in inp["declaration_off"])
+    try:
+        files, cf, ff = run({"python": False, "lua": False}, {})
+    except (RuntimeError, SystemExit):
+        return None
+    finally:
+        YAML = saved
+    import re
+    for rel, data in sorted(files.items()):
+        text = data.decode("utf-8", "replace")
+        kind = classify(os.path.basename(rel))
+        if kind == "c" and "c" in inp["declaration_off"] and re.search(r'\bSEL_hidden\w*\s*\(', text):
+            return "wrap_c is off for 'hidden' but %s declares/defines a C wrapper for it" % rel
+        if kind == "f" and "fortran" in inp["declaration_off"]:
+            m = re.search(r'^\s*(subroutine|function)\s+hidden\w*', text, re.M | re.I)
+            if m:
+                return "wrap_fortran is off for 'hidden' but %s has the Fortran wrapper %r" % (rel, m.group(0).strip())
+            if "c" in inp["declaration_off"] and re.search(r'c_hidden', text, re.I):
+                return "wrap_c and wrap_fortran are off for 'hidden' but %s has an interface for it" % rel
+    return None
+
+
 def check(inp):
+    if inp.get("declaration_off"):
+        return check_declaration_off(inp)
     if inp.get("nested"):
         return check_nested(inp)
     flags, dirs = inp["flags"], inp.get("dirs", {})
@@ -163,3 +203,6 @@ def candidates(seed, around=None):
     yield {"nested": True, "flags": {"c": False, "fortran": False, "python": False, "lua": False}, "enable": "python"}
     yield {"nested": True, "flags": {"c": False, "fortran": False, "python": False, "lua": False}, "enable": "lua"}
     yield {"nested": True, "flags": {"c": True, "fortran": False, "python": False, "lua": False}, "enable": "fortran"}
+    # per-declaration switch-off must also hold for the shorter signatures of a function with default arguments
+    yield {"declaration_off": ["fortran"]}
+    yield {"declaration_off": ["c", "fortran"]}
